@@ -113,6 +113,7 @@ impl<W: AsyncWrite> AsyncWrite for BufWriter<W> {
         let Self { writer, buf } = self;
 
         buf.flush_to(writer).await?;
+        writer.flush().await?;
 
         Ok(())
     }
